@@ -3,8 +3,10 @@
 usage: tools/seeds.py <seed-dir>... [--props C01,C02]   (seed-dir holds patch.diff; applied to /repo and reverted afterwards)"""
 import json, os, subprocess, sys
 
-SCR = '/tmp/seedrepo'
-ENV = dict(os.environ, OPQ_REPO=SCR, OPQ_WORK='/tmp/seedwork')
+SCR = os.environ.get('SEED_REPO', '/tmp/seedrepo')
+SWORK = os.environ.get('SEED_WORK', '/tmp/seedwork')
+SNAP = os.path.join(SWORK, 'snap')      # the checks run from a snapshot of /verif taken at start, so /verif can be edited meanwhile
+ENV = dict(os.environ, OPQ_REPO=SCR, OPQ_WORK=SWORK)
 
 
 def sh(cmd):
@@ -23,7 +25,10 @@ def main():
     sh('git -C /repo worktree remove --force %s' % SCR)
     r = sh('git -C /repo worktree add --detach %s HEAD' % SCR)
     assert r.returncode == 0, r.stderr
-    os.makedirs('/tmp/seedwork', exist_ok=True)
+    os.makedirs(SWORK, exist_ok=True)
+    r = sh("rsync -a --delete --exclude .work --exclude .git --exclude seeded --exclude refactorings --exclude evidence "
+           "--exclude __pycache__ --exclude 'engine/harness/suites/target' --exclude 'engine/fixtures/target' /verif/ %s/" % SNAP)
+    assert r.returncode == 0, r.stderr
     for sd in args:
         patch = os.path.join(sd, 'patch.diff')
         r = sh('git -C %s apply %s' % (SCR, patch))
@@ -35,9 +40,9 @@ def main():
         try:
             from concurrent.futures import ThreadPoolExecutor
             plist = list(props or allp)
-            sh('cd /verif && python3 engine/py/facts.py')     # one extraction, then the checks share it
+            sh('cd %s && python3 engine/py/facts.py' % SNAP)     # one extraction, then the checks share it
             def one(p):
-                return p, sh('cd /verif && ./check %s' % p)
+                return p, sh('cd %s && ./check %s' % (SNAP, p))
             with ThreadPoolExecutor(max_workers=9) as ex:
                 for p, r in ex.map(one, plist):
                     row[p] = {0: '-', 1: 'CAUGHT', 2: 'ERR'}.get(r.returncode, '?')
